@@ -284,6 +284,22 @@ def main(prop, tier, seed):
                 run.sample(dict(kind="commensurate", step="%d e-%d" % (c["a"], c["e"]), k=c["k"], rows=c["nr"]))
             for c in _LATTICE:
                 run.distinct("lat:%d:%d:%d" % (c["a"], c["e"], c["k"]))
+            # a given cutoff is the cutoff of the table, also when it is no whole multiple of the given step (CutoffGivenIsKept)
+            for cut, step in (("10.0", "0.03"), ("6.5", "0.4"), ("1.0", "0.3"), ("2.5", "0.7"), ("12", "0.35")):
+                for grid in ("r", "rho"):
+                    n_nr, n_dr, n_cut = NAMES[grid]
+                    lines = ["%s : %s" % (n_cut, cut), "%s : %s" % (n_dr, step)]
+                    obs, text = observe_parser(lines, grid)
+                    run.evaluations += 1
+                    if obs[0] != "accept" or not close(obs[2], float(cut)):
+                        run.violation(dict(engine="grid", clause="wrong-grid", grid=grid), "[wrong-grid] %s grid: %s gives %s; the cutoff given is the cutoff of the table" % (grid, lines, obs[1:]), dict(ini=text))
+                        continue
+                    for target in (["LAMMPS", "GULP", "setfl"] if grid == "r" else ["setfl", "DL_POLY_EAM"]):
+                        obs2, text2 = observe_table(lines, grid, target)
+                        run.evaluations += 1
+                        if obs2[0] != "accept" or obs2[1] != obs[1] or not close(obs2[2], float(cut)) or abs(obs2[3] - float(cut) / (obs[1] - 1)) > 1e-6:      # the tables print 8 decimals
+                            run.violation(dict(engine="grid", clause="table-grid", grid=grid), "[table-grid] %s grid: %s via %s: table %s; it must have the %d rows the reader derives, equally spaced and ending at the cutoff %s" % (
+                                grid, lines, target, obs2[1:], obs[1], cut), dict(ini=text2))
             run.rule = "cases = 216 presence/sign classes x 2 grids (x written tables) + decimal lattice (a*10^-e, k) within steps 1e-4..0.5 and <= 20001 rows x 2 grids; non-trivial = >= 2 options present / every lattice point"
     except tlc.TLCError as e:
         run.machinery(str(e))
